@@ -36,6 +36,9 @@ for ef in sorted(glob.glob(ROOT + "/evidence/C*.json")):
         if t.startswith("inlined private helpers"):
             for q in t.split(": ", 1)[1].split(", "):
                 fs.add(q.replace(" (auto)", "").replace(".setter", ""))
+    for q in e["coverage"].get("functions_interpreted", []):
+        fs.add(q.replace(".setter", "").replace(".getter", ""))
+    fs = {q.replace(" (memoised)", "") for q in fs}
     check_funcs[pid] = fs
     files = set()
     for rel, lst in spans.items():
